@@ -1,0 +1,9 @@
+//go:build !verif
+
+package pipeline
+
+// Empty stub for the verification hooks (see verif_on.go, build tag "verif").
+
+func verifPt(string, *BlockItem) {}
+
+func verifPtStage(Stage, string, *BlockItem) {}
